@@ -52,6 +52,8 @@ pub struct SimCfg {
     pub crashes: bool,
     pub steps: usize,
     pub late_join: bool,
+    /// no key-value writes at all: every delta is empty, no compression happens (FFI-free, for Miri)
+    pub no_data: bool,
 }
 
 impl SimCfg {
@@ -97,6 +99,7 @@ impl SimCfg {
             crashes: !matches!(profile, Profile::Replication) || rng.random_bool(0.3),
             steps: rng.random_range(50..=400),
             late_join: rng.random_bool(0.3),
+            no_data: false,
         }
     }
     pub fn to_json(&self) -> Value {
@@ -1318,7 +1321,11 @@ impl World {
             }
         }
         match kind {
-            0 => self.random_write(a),
+            0 => {
+                if !self.cfg.no_data {
+                    self.random_write(a)
+                }
+            }
             1 => {
                 if self.slots[b].started {
                     self.syn(a, b)
